@@ -69,6 +69,7 @@ def common_checks(rec, ips, ids_in, model):
 
 def run_sampling(kind, algo_name, n, frac_tenths, annealing, variant, seed):
     rec = {"type": "sampling", "kind": kind, "algo": algo_name, "n": n, "frac": frac_tenths, "annealing": annealing, "variant": variant,
+           "budget": "-", "values_belong_to_ids": True,
            "status": "ok", "nb": 0, "nb_expected": int((Fraction(frac_tenths, 10) * n).__floor__()), "kept": [], "chosen": [],
            "loss_ranks": [], "mean_ok": False, "mode_values_ok": False, "ids_in": [], "ids_out": [], "one_set_each": False,
            "all_finite": False, "shapes_ok": False, "never_worse": True}
@@ -120,11 +121,14 @@ def run_sampling(kind, algo_name, n, frac_tenths, annealing, variant, seed):
     first = names[0]
     kept = []
     for j in range(vals[first].shape[0]):
-        match = [k + 1 for k, c in enumerate(chain) if all(torch.equal(c["vals"][v], vals[v][j]) for v in names)
-                 and torch.equal(c["att"], captured["att"][j]) and torch.equal(c["reg"], captured["reg"][j])]
+        match = [k + 1 for k, c in enumerate(chain) if all(torch.equal(c["vals"][v], vals[v][j]) for v in names)]
         kept.append(match[-1] if len(match) == 1 else (match[0] if match else -1))
     rec["kept"] = kept
-    loss = (captured["att"] + captured["reg"]).double()        # (n_kept, n_ind)
+    if any(k < 0 for k in kept):
+        return rec
+    # the loss of every kept draw is read from the chain itself (attachment + regularity of the state after that iteration),
+    # not from what the algorithm handed to its estimator
+    loss = torch.stack([(chain[k - 1]["att"] + chain[k - 1]["reg"]).double() for k in kept])        # (n_kept, n_ind)
     n_ind = loss.shape[1]
     rec["loss_ranks"] = [_ranks(loss[:, i].tolist()) for i in range(n_ind)]
     out = captured["out"]
@@ -149,8 +153,9 @@ def run_sampling(kind, algo_name, n, frac_tenths, annealing, variant, seed):
     return rec
 
 
-def run_optim(kind, variant, seed, use_jacobian):
+def run_optim(kind, variant, seed, use_jacobian, budget=None):
     rec = {"type": "optim", "kind": kind, "algo": "scipy", "n": 0, "frac": 0, "annealing": False, "variant": variant, "status": "ok",
+           "budget": budget or "default", "values_belong_to_ids": False,
            "nb": 0, "nb_expected": 0, "kept": [], "chosen": [], "loss_ranks": [], "mean_ok": True, "mode_values_ok": True,
            "ids_in": [], "ids_out": [], "one_set_each": False, "all_finite": False, "shapes_ok": False, "never_worse": False}
     model = fitted(kind, 3)
@@ -171,13 +176,31 @@ def run_optim(kind, variant, seed, use_jacobian):
     try:
         with warnings.catch_warnings():
             warnings.simplefilter("ignore")
-            ips = model.personalize(data, "scipy_minimize", seed=seed, progress_bar=False, use_jacobian=use_jacobian)
+            kw = {}
+            if budget == "one_iteration":
+                # an optimiser that stops on its iteration budget (reported as a convergence issue), result must still be usable
+                kw["custom_scipy_minimize_params"] = dict(method="Powell", options=dict(maxiter=1))
+            ips = model.personalize(data, "scipy_minimize", seed=seed, progress_bar=False, use_jacobian=use_jacobian, **kw)
     except Exception as e:  # noqa: BLE001
         rec["status"] = f"{type(e).__name__}: {str(e)[:100]}"
         return rec
     finally:
         sm_mod.minimize = o_min
     common_checks(rec, ips, dataset.indices, model)
-    rec["never_worse"] = len(calls) == dataset.n_individuals and all(f1 <= f0 + 1e-6 * (1 + abs(f0)) for f0, f1 in calls)
-    rec["objective_pairs"] = [[round(a, 4), round(b, 4)] for a, b in calls[:3]]
+    # the objective of every individual AT THE RETURNED POINT, on its own data (cohort state, per-individual terms)
+    try:
+        st = model.state.clone(disable_auto_fork=True)
+        model.put_data_variables(st, dataset)
+        for v in sorted(model.dag.sorted_variables_by_type[IndividualLatentVariable]):
+            rows = [np.atleast_1d(np.asarray(ips[i][v], dtype=np.float32)).reshape(-1) for i in dataset.indices]
+            st[v] = torch.tensor(np.stack(rows))
+        own = (st.get_tensor_value("nll_attach_ind") + st.get_tensor_value("nll_regul_ind_sum_ind")).double().reshape(-1).tolist()
+    except Exception as e:  # noqa: BLE001
+        rec["status"] = f"own objective: {type(e).__name__}: {str(e)[:100]}"
+        return rec
+    ok_n = len(calls) == dataset.n_individuals
+    # never worse than the starting point; and the returned point is the optimiser's point of THAT individual
+    rec["never_worse"] = ok_n and all(o <= f0 + 1e-4 * (1 + abs(f0)) for o, (f0, f1) in zip(own, calls))
+    rec["values_belong_to_ids"] = ok_n and all(abs(o - f1) <= 2e-3 * (1 + abs(f1)) for o, (f0, f1) in zip(own, calls))
+    rec["objective_pairs"] = [[round(a, 4), round(b, 4), round(o, 4)] for (a, b), o in list(zip(calls, own))[:3]]
     return rec
